@@ -72,6 +72,14 @@ def check_case(case):
         m = gen.module(items)
     except Exception as e:  # noqa: BLE001
         return out, "unbuildable:" + type(e).__name__
+    for prior_enc, prior_cfg in case.get("prior", []):
+        # what the process had done with this module before (only present in replays): state
+        # shared between encoder classes depends on who saw a value first
+        try:
+            impl.make_encoder(prior_enc, **{k: v for k, v in prior_cfg.items() if v is not None}).encode(
+                gen.module(items))
+        except Exception:  # noqa: BLE001
+            pass
     try:
         enc = impl.make_encoder(encname, **{k: v for k, v in cfg.items() if v is not None})
         text = enc.encode(m)
@@ -157,11 +165,14 @@ def shard(spec):
     mods, combos, reader = spec
     acc = Acc()
     for name, items in mods:
-        for encname, cfg in combos:
+        for ci, (encname, cfg) in enumerate(combos):
             case = {"items": items, "enc": encname, "cfg": cfg, "shape": name}
             if reader:
                 case["reader"] = reader
             vs, status = check_case(case)
+            if vs and ci and len(combos) <= 4:
+                for v in vs:
+                    v["case"] = dict(v["case"], prior=[[e, c] for e, c in combos[:ci]])
             acc.n += 1
             acc.outcomes[status if not vs else "violation"] += 1
             acc.sets["combo"].add((name, encname))
@@ -242,6 +253,8 @@ def replay(case):
 
 def candidates(case):
     items = case["items"]
+    if case.get("prior"):
+        yield {k: v for k, v in case.items() if k != "prior"}
     if case.get("cfg"):
         for k in sorted(case["cfg"]):
             c = dict(case)
